@@ -27,9 +27,25 @@ def fresh(prefix, sort):
     return z3.Const("%s!%d" % (prefix, next(_cnt)), sort)
 
 
+MEMO = {}          # per-run memo of spec terms (cleared with the fresh-name counter)
+_SEXPR = {}        # ast id -> (term, printed form) : canonical operand order of n-ary max / min
+
+
 def reset_fresh():
     global _cnt
     _cnt = itertools.count()
+    MEMO.clear()
+
+
+def skey(t_):
+    k = t_.get_id()
+    e = _SEXPR.get(k)
+    if e is None:
+        if len(_SEXPR) > 200000:
+            _SEXPR.clear()
+        e = (t_, t_.sexpr())
+        _SEXPR[k] = e
+    return e[1]
 
 
 def is_z3(x):
@@ -295,7 +311,7 @@ def _mm(kind, a, b):
         uniq[x.get_id()] = x
     # canonical order by the printed term, NOT by z3's ast id: ids depend on what the process created before, and a
     # different operand order (same meaning) makes solver behaviour differ from run to run
-    args = sorted(uniq.values(), key=lambda t_: t_.sexpr())
+    args = sorted(uniq.values(), key=skey)
     m = args[0]
     for x in args[1:]:
         m = z3.If(m >= x, m, x) if kind == 'max' else z3.If(m <= x, m, x)
